@@ -65,8 +65,10 @@ def make_env(rng, kind, n, ctxkind, fn_rewards, extra, ksize=None):
         elif ctxkind == "sparse": ctx = {"f": i}
         elif ctxkind == "scalar": ctx = i
         else: ctx = None
-        k = ksize or rng.choice([2, 3, 3, 4])
+        k = (ksize if isinstance(ksize, int) else None) or rng.choice([2, 3, 3, 4])
         acts = [10 * ((i + j) % 5) + j for j in range(k)]        # action sets change between interactions
+        if ksize == "pool":  # directed: a few sets (with and without the ints 0 / 1) that come back after other sets: A,B,A / A,B,B,A / A,A
+            acts = [[0, 1, 2], [2, 3, 4], [1, 5], [6, 7, 8], [0, 9]][rng.randrange(5)]
         if ksize == 2:      # directed: two actions, exactly one of them the int 0 or the int 1, in either position
             acts = [[0, 2], [1, 2], [3, 1], [2, 0], [5, 7]][(i + ksize_off) % 5]
         rw = [rng.choice([0, 0.4, 1.0]) for _ in acts]
@@ -124,7 +126,8 @@ def run(ctx):
             if kind == "lognoact" and out_pred and not ((learn in ("on", "ips")) or ev == "on" or (ev == "ips" and not hs)): continue
             n = rng.choice([1, 3, 4]); ctxkind = rng.choice(["dense", "sparse", "scalar", "none"]); fn = rng.random() < .5; extra = rng.random() < .5
             batch = rng.choice([0, 0, 2, 3]); fmt = rng.choice(["a", "ap", "apk", "apk", "pmf"]); ksize = None
-            if is_directed: n, batch, fmt, ksize = 10, 0, rng.choice(["pmf", "pmf", "ap"]), 2
+            if is_directed: n, batch, fmt, ksize = 10, 0, rng.choice(["pmf", "pmf", "ap"]), rng.choice([2, "pool"])
+            elif rng.random() < .25: n, ksize = rng.choice([4, 8]), "pool"
             its, abst, ctx_id = make_env(rng, kind, n, ctxkind, fn, extra, ksize)
             log = []
             case = dict(learn=learn, eval=ev, record=rec, has_score=hs, kind=kind, n=n, context=ctxkind, fn_rewards=fn, extra=extra, batch=batch, fmt=fmt)
